@@ -433,6 +433,57 @@ def _zip(ex, st, args, kwargs, node):
     return ZipVal(list(args))
 
 
+class SuperProxy:
+    __slots__ = ("ref", "after")
+
+    def __init__(self, ref, after):
+        self.ref = ref
+        self.after = after
+
+
+@intrinsic(super)
+def _super(ex, st, args, kwargs, node):
+    """zero-argument super(): attribute lookup continues after the class that defines the running method"""
+    if args:
+        raise Unsupported("super() with arguments")
+    frame = st.frames[-1]
+    self_ref = frame.get("self")
+    qual = frame.get("$qualname") or ""
+    mod = frame.get("$module")
+    if not isinstance(self_ref, Ref) or "." not in qual or mod is None:
+        raise Unsupported("super() outside a method")
+    cls = getattr(mod, qual.split(".")[0], None)
+    if not isinstance(cls, type):
+        raise Unsupported("super(): defining class not found")
+    return SuperProxy(self_ref, cls)
+
+
+@intrinsic(next)
+def _next(ex, st, args, kwargs, node):
+    from .execute import FilteredItems
+    x = args[0]
+    if isinstance(x, FilteredItems):
+        # first item whose filter condition holds; none -> StopIteration (path excluded, A2: assumed not to happen)
+        if not x.items:
+            raise PathRaise(StopIteration, "empty generator")
+        acc = x.items[-1]
+        for v, c in zip(reversed(x.items[:-1]), reversed(x.conds[:-1])):
+            acc = ite(c, v, acc)
+        anyc = zor(*x.conds)
+        if anyc is not True:
+            st.assume(anyc)
+            ex.ctx.notes.append("A2: next() on a generator that may be empty - StopIteration path excluded")
+        return acc
+    items = ex.iter_items(x, st, node)
+    if items is None:
+        raise Unsupported("next() over symbolic-length iterable")
+    if not items:
+        if len(args) > 1:
+            return args[1]
+        raise PathRaise(StopIteration, "empty")
+    return items[0]
+
+
 @intrinsic(list, tuple)
 def _list(ex, st, args, kwargs, node):
     kind = "list"
